@@ -35,7 +35,8 @@ FAMILIES = {
              'non-trivial: an external await returns or hangs for an event that has a child'),
     'C04': dict(
         gens=[('core', dict(nb=(1, 3), proglen=(1, 6)), 0.4), ('core', dict(nb=(1, 2), proglen=(2, 6), p_timeout=0.5, nh=(2, 7)), 0.15),
-              ('chain', dict(), 0.15), ('chain', dict(p_timeout=1.0, p_await=0.95, min_depth=3, nb=(1, 1), maxh=(50,)), 0.2), ('deep', dict(), 0.1)],
+              ('chain', dict(), 0.15), ('chain', dict(p_timeout=1.0, p_await=0.95, min_depth=3, nb=(1, 1), maxh=(50,)), 0.15), ('deep', dict(), 0.08),
+              ('parraise', dict(), 0.07)],
         facets=CORE + ['await', 'signal', 'lock', 'results', 'lineage', 'timeout'],
         rule='handlers that dispatch to any bus and await with sleeps/yields before and during the await, nesting <= 4; '
              'non-trivial: an in-handler await occurs'),
@@ -46,7 +47,8 @@ FAMILIES = {
         rule='queues holding 0-4 unrelated events before/after the awaited child on the same/other buses, external dispatch during the window; '
              'non-trivial: an in-handler await occurs while another event is queued somewhere'),
     'C06': dict(
-        gens=[('core', dict(nb=(2, 3)), 0.65), ('core', dict(nb=(2, 3), p_timeout=0.6, p_cleanup=0.6, proglen=(1, 5)), 0.35)],
+        gens=[('core', dict(nb=(2, 3)), 0.55), ('core', dict(nb=(2, 3), p_timeout=0.6, p_cleanup=0.6, proglen=(1, 5)), 0.3),
+              ('core', dict(nb=(2, 3), p_parallel=0.7, p_dupnames=1.0, nh=(3, 8), p_sync=0.05, p_wild=0.4, proglen=(1, 5)), 0.15)],
         facets=CORE + ['lock', 'await', 'timeout'],
         rule='2-3 buses, first use of a bus from main code / from inside a handler / inside an awaited child, long handlers; '
              'non-trivial: two buses each start a handler'),
@@ -54,8 +56,8 @@ FAMILIES = {
         gens=[('core', dict(nb=(2, 3), p_forward=0.45, p_wild=0.4), 0.4),
               ('core', dict(nb=(2, 4), p_forward=0.5, p_wild=0.5, p_redispatch=0.25, nh=(2, 8)), 0.2),
               ('core', dict(nb=(3, 4), p_forward=0.6, p_wild=0.6, nh=(3, 8), p_samenames=1.0), 0.1),
-              ('core', dict(nb=(2, 3), p_forward=0.4, p_wild=0.5, p_timeout=0.6, nh=(3, 8), proglen=(1, 4)), 0.3)],
-        facets=CORE + ['path', 'dispatch', 'results', 'lock', 'timeout'],
+              ('core', dict(nb=(2, 3), p_forward=0.4, p_wild=0.5, p_timeout=0.6, nh=(3, 8), proglen=(1, 4)), 0.22), ('deepfwd', dict(), 0.08)],
+        facets=CORE + ['path', 'dispatch', 'results', 'lock', 'timeout', 'recursion'],
         rule='random forwarding digraphs (incl. self loops, several wildcard forwards per bus) with ordinary handlers and concurrent traffic; '
              'non-trivial: some forwarding handler dispatches'),
     'C08': dict(
@@ -149,7 +151,7 @@ def gen_backlog(rng, p_waitidle=0.0, **_):
     return sc
 
 
-GENS = {'core': gen.gen_core, 'backlog': gen_backlog, 'chain': gen.gen_chain, 'stop': gen.gen_stop, 'idle': gen.gen_idle, 'deep': gen.gen_deep, 'sibling': gen.gen_sibling, 'parraise': gen.gen_parraise}
+GENS = {'core': gen.gen_core, 'backlog': gen_backlog, 'chain': gen.gen_chain, 'stop': gen.gen_stop, 'idle': gen.gen_idle, 'deep': gen.gen_deep, 'sibling': gen.gen_sibling, 'parraise': gen.gen_parraise, 'deepfwd': gen.gen_deepfwd}
 
 
 def corpus(prop):
